@@ -53,6 +53,8 @@ type Spec struct {
 	ticksQuiet   int  // flusher ticks since the last call that may leave a write pending (async)
 	dirty        bool // a write may be pending (async mode, since the last flush / commit / close)
 	outside      bool // the directory was modified from outside (fault ops)
+	loaded       bool // the handle has certainly loaded the schema (some call since the last reopen)
+	memStale     bool // schema.json was edited from outside since the handle loaded it
 }
 
 // failedWrite: a write call that returned an error, with the sweep taken just before it
@@ -811,6 +813,16 @@ func (s *Spec) stateOracles(e *Exec, t, r []string) {
 		s.outside = true
 	}
 	switch t[0] {
+	case "reopen", "close", "vopen":
+		s.loaded, s.memStale = false, false
+	case "rmschema", "rmentry":
+		s.memStale = true
+	case "count", "all", "get", "getu", "exist", "ins", "many", "bulk", "del", "search", "aidx", "schema", "repair", "commit":
+		if r[0] == "ok" {
+			s.loaded = true
+		}
+	}
+	switch t[0] {
 	case "count", "all", "dump":
 		if t[0] == "count" {
 			s.sweep = s.sweep[:0]
@@ -863,6 +875,16 @@ func (s *Spec) stateOracles(e *Exec, t, r []string) {
 		}
 		if t[0] == "schema" {
 			break
+		}
+		// IF AND ONLY IF (C11), judged by the harness's own comparison of the two sets: synchronous
+		// mode, schema loaded by this handle and not edited from outside since, no storage fault or crash
+		if !s.faulted && s.crashCtx == "" && !s.mute && s.variant <= 1 && !e.cfg.Async && s.loaded && !s.memStale && e.ctlDiffer >= 0 {
+			if e.ctlDiffer == 1 && r[0] == "ok" {
+				s.fail(e, "C11", "Control succeeds although the uuids named by the directory differ from the indexed uuids")
+			}
+			if e.ctlDiffer == 0 && r[0] == "corrupted" {
+				s.fail(e, "C11", "Control reports corruption although the uuids named by the directory are exactly the indexed uuids")
+			}
 		}
 		s.lastCtl = r[0]
 		if p := s.pending; p != nil && p.class == "storage-diverged" {
